@@ -71,7 +71,7 @@ class FakeThread:
 
 
 # ----------------------------------------------------------------------------------------------- scenarios
-def gen_scenario(rng):
+def gen_scenario(rng, conflict=None):
     n_act = rng.choice((2, 2, 3, 3, 4))
     pre = {"live": rng.choice((1, 2, 2, 3)), "doomed": rng.choice((0, 1, 1, 2)), "subs": rng.choice((0, 1, 2)),
            "prov5": rng.random() < 0.3, "cons3": rng.random() < 0.5}
@@ -109,6 +109,42 @@ def gen_scenario(rng):
                     op = {"op": "attend"}
             ops.append(op)
         actors.append(ops)
+    if conflict is not None:
+        # directed class: the first operations of two actors conflict on one object / registration / subscription, so that a
+        # single preemption inside one of them already interleaves the two critical sequences
+        pre["doomed"] = max(pre["doomed"], 1)
+        pre["live"] = max(pre["live"], 2)
+        pre["subs"] = max(pre["subs"], 1)
+        pre["cons3"] = pre["prov5"] = True
+        live1, doomed0 = 1, pre["live"]
+        pairs = [
+            ({"op": "update", "pre": live1}, {"op": "delete", "pre": live1}),
+            ({"op": "delete", "pre": live1}, {"op": "delete", "pre": live1}),
+            ({"op": "update", "pre": doomed0}, {"op": "gc"}),
+            ({"op": "delete", "pre": doomed0}, {"op": "gc"}),
+            ({"op": "update", "pre": live1}, {"op": "update", "pre": live1}),
+            ({"op": "dereg_c3"}, {"op": "subscribe3"}),
+            ({"op": "dereg_c3"}, {"op": "dereg_c3"}),
+            ({"op": "unsub", "pre": 0}, {"op": "unsub", "pre": 0}),
+            ({"op": "unsub", "pre": 0}, {"op": "attend"}),
+            ({"op": "dereg_p5"}, {"op": "add5"}),
+            ({"op": "dereg_p5"}, {"op": "dereg_p5"}),
+            ({"op": "add"}, {"op": "add"}),
+            ({"op": "add"}, {"op": "query"}),
+            ({"op": "delete", "pre": live1}, {"op": "query"}),
+        ]
+        pair = pairs[conflict % len(pairs)]
+        if rng.random() < 0.5:
+            pair = pair[::-1]
+        actors[0] = [dict(pair[0])] + [o for o in actors[0][:2] if "own" not in o]
+        actors[1] = [dict(pair[1])] + [o for o in actors[1][:2] if "own" not in o]
+        for a in actors:
+            for o in a:
+                if "pre" in o and o["op"] in ("update", "delete"):
+                    o["pre"] = min(o["pre"], pre["live"] + pre["doomed"] - 1)
+                if "pre" in o and o["op"] == "unsub":
+                    o["pre"] = min(o["pre"], pre["subs"] - 1)
+        focus = "conflict"
     return {"service": rng.choice(("Reactive", "Threads")), "maint": rng.choice(("Reactive", "Thread")), "pre": pre, "actors": actors,
             "adv": rng.random() < 0.5, "focus": focus}
 
@@ -673,19 +709,26 @@ def one(spec, plan, policy, res, mode, log_from=None, instr_points=True):
 
 
 # -------------------------------------------------------------------------------------------------- driver
+N_CONFLICT_PAIRS = 14
 BUDGET = {"quick": {"sync": 500, "instr": 500, "random": 200}, "thorough": {"sync": 10000, "instr": 6000, "random": 4000}}
 NSHARD = {"quick": {"sync": 2, "instr": 3, "random": 2}, "thorough": {"sync": 4, "instr": 6, "random": 4}}
+# the directed two-actor conflicts are small: one shard per mode explores them
+BUDGET_C = {"quick": {"sync": 300, "instr": 400, "random": 100}, "thorough": {"sync": 6000, "instr": 4000, "random": 2000}}
 
 
 def shards(tier, seed):
     rng = random.Random(seed * 104729 + 16)
     out = []
-    n_scn = {"quick": 7, "thorough": 16}[tier]
+    n_scn = {"quick": 4, "thorough": 12}[tier]
     for i in range(n_scn):
         spec = gen_scenario(rng)
         for mode, nsh in NSHARD[tier].items():
             for sh in range(nsh):
-                out.append({"spec": spec, "mode": mode, "shard": sh, "nshards": nsh, "tier": tier, "seed": seed * 1000 + i})
+                out.append({"spec": spec, "mode": mode, "shard": sh, "nshards": nsh, "tier": tier, "seed": seed * 1000 + i, "budget": BUDGET[tier][mode]})
+    for j in range(N_CONFLICT_PAIRS * (1 if tier == "quick" else 3)):
+        spec = gen_scenario(rng, conflict=j)
+        for mode in ("sync", "instr", "random"):
+            out.append({"spec": spec, "mode": mode, "shard": 0, "nshards": 1, "tier": tier, "seed": seed * 1000 + 500 + j, "budget": BUDGET_C[tier][mode]})
     return out
 
 
@@ -696,7 +739,7 @@ def run_shard(spec_, res):
 
     def run_one(plan, policy, mode_, log_from, instr_points):
         return one(spec, plan, policy, res, mode_, log_from=log_from, instr_points=instr_points).sched
-    explore.explore(run_one, res, mode, BUDGET[tier][mode], sh, nsh, rng)
+    explore.explore(run_one, res, mode, spec_.get("budget", BUDGET[tier][mode]), sh, nsh, rng)
 
 
 def replay(case, res):
